@@ -516,6 +516,26 @@ func (g *gen) program() string {
 		default:
 			return sub() + " ~> $match(" + re + ")"
 		}
+	case "num":
+		x := g.pick("0", "1", "2.5", "-2.5", "3.5", "0.125", "1.005", "12345.678", "-0.5", "1e3", "99.995", "0.1", "7", "255", "1.45", "-1.55", "100", "0.0625", "1234.5", "1e-3", "45")
+		switch g.r.Intn(9) {
+		case 0, 1:
+			return "$round(" + x + g.pick("", ", 0", ", 1", ", 2", ", 3", ", -1", ", -2") + ")"
+		case 2:
+			return "$formatBase(" + x + ", " + g.pick("2", "8", "16", "36", "10", "1", "37", "2.5", "0") + ")"
+		case 3:
+			return "$number(" + g.pick(`"12"`, `"1.5"`, `"-3e2"`, `"1e"`, `".5"`, `"0x10"`, `"1.5.2"`, `" 1"`, `"+1"`, `"1E+2"`, `"00"`, "true", "false", x, `"-0"`, `"1e-2"`) + ")"
+		case 4:
+			return g.pick("$floor", "$ceil", "$abs", "$sqrt") + "(" + x + ")"
+		case 5:
+			return "$power(" + x + ", " + g.pick("0", "1", "2", "3", "-1", "0.5") + ")"
+		case 6:
+			return "$number($string(" + x + ")) = " + x
+		case 7:
+			return "$string(" + x + ")"
+		default:
+			return "$string($round(" + x + ", " + g.pick("0", "1", "2") + "))"
+		}
 	case "str":
 		pool := []rune("ab, é€😀\t-z")
 		rs := func(max int) string {
